@@ -2,10 +2,7 @@ SPECIFICATION Spec
 CONSTANTS
   Invalidate = TRUE
   ShareTimes = TRUE
-  InPlace = FALSE
+  InPlace = TRUE
   MaxLen = 4
-  Small = FALSE
+  Small = TRUE
 INVARIANT Coherent
-INVARIANT Independent
-INVARIANT DurationLaw
-INVARIANT LayoutsAgree
